@@ -72,6 +72,7 @@ func init() {
 			c.R.Floor("C01.STUBNONNIL", 2)
 			c.R.Floor("C01.NOBLOCK", 20)
 			c.R.Floor("C01.LOCKORDER", 4)
+			ruleCallbackSharedWrites(c, "C01.CALLBACK-SHARED") // concurrent map writes are fatal, not recoverable
 			c.R.Note("scope: %d first-party functions reachable from %d handler roots + 2 Serve loops", len(fns), 2+len(ro.AllHandlers()))
 		},
 	})
